@@ -447,3 +447,72 @@ macro_rules! eqs {
 }
 eqs!(k11_eq_shared_byte, b"y");
 eqs!(k11_eq_shared_u16, b"yy*");
+
+/// Three clean values of one type from independent buffers/offsets: `==` and
+/// the ordering are transitive (with antisymmetry and totality from the pair
+/// harnesses this makes `cmp` a total order consistent with `==`).
+fn trans_core(code: &'static [u8]) {
+    let t = parse(code);
+    let ty = build(code);
+    let w = t.w[t.root];
+    let mk = |_: u8| {
+        let d: [u8; 4] = kani::any();
+        let off: usize = kani::any();
+        kani::assume(off <= 7 && off + w <= 24);
+        let mut bits = [false; MAXW];
+        let mut i = 0;
+        while i < MAXW {
+            if i < w {
+                bits[i] = bit(&d, off + i);
+            }
+            i += 1;
+        }
+        let mut live = [false; MAXW];
+        mark(&t, t.root, &bits, 0, &mut live);
+        let mut i = 0;
+        while i < MAXW {
+            if i < w {
+                kani::assume(live[i] || !bits[i]);
+            } else if i < (w + 7) / 8 * 8 {
+                kani::assume(!bit(&d, off + i));
+            }
+            i += 1;
+        }
+        let a: Arc<[u8]> = Arc::from(&d[..]);
+        hooks::value_from_raw_parts(a, off, Arc::clone(&ty))
+    };
+    let (a, b, c) = (mk(0), mk(1), mk(2));
+    use std::cmp::Ordering::*;
+    let (ab, bc, ac) = (a.cmp(&b), b.cmp(&c), a.cmp(&c));
+    if ab != Greater && bc != Greater {
+        assert!(ac != Greater, "cmp is not transitive");
+    }
+    if ab == Less && bc != Greater || ab != Greater && bc == Less {
+        assert!(ac == Less, "cmp is not transitive (strict)");
+    }
+    if a == b && b == c {
+        assert!(a == c, "== is not transitive");
+    }
+    kani::cover!(ab == Less && bc == Less, "strictly increasing triple");
+    kani::cover!(ab == Equal && bc == Less, "equal then less");
+    std::mem::forget(a);
+    std::mem::forget(b);
+    std::mem::forget(c);
+    std::mem::forget(ty);
+}
+
+macro_rules! trh {
+    ($name:ident, $code:expr) => {
+        #[kani::proof]
+        #[kani::unwind(34)]
+        #[kani::stub(simplicity::types::precomputed::nth_power_of_2, crate::vals::stub_nth_power_of_2)]
+        #[kani::stub(simplicity::Tmr::sum, crate::hcons::stub_tmr_sum)]
+        #[kani::stub(simplicity::Tmr::product, crate::hcons::stub_tmr_product)]
+        #[kani::stub(std::sync::Arc::drop_slow, crate::hcons::stub_arc_drop_slow)]
+        fn $name() {
+            trans_core($code)
+        }
+    };
+}
+trh!(k11_trans_clean_sum_b_y, b"by+");
+trh!(k11_trans_clean_prod_sum, b"ub+n*");
